@@ -249,7 +249,8 @@ def bounded(tier, seed):
             failures.append({"inputs": inp, "violated": v})
 
     header_sets = [[], [("Accept", "text/html, */*;q=0.1"), ("Cookie", 'a=1; b="x\\073y"')], [("X-Dup", "1"), ("X-Dup", "2"), ("Referer", "http://r/x")],
-                   [("Host", "pub.example:81"), ("Date", "Wed, 21 Oct 2015 07:28:00 GMT")]]
+                   [("Host", "pub.example:81"), ("Date", "Wed, 21 Oct 2015 07:28:00 GMT")],
+                   [("X-HTTP-Method-Override", "PATCH"), ("HTTP-Referer", "r"), ("X-Http-Foo", "1"), ("HTTP2-Settings", "s")]]
     bodies = [("application/json", b'{"a": [1, 2]}'), ("application/x-www-form-urlencoded", b"a=1&a=2&b=%C3%A9"),
               ("multipart/form-data; boundary=b", b'--b\r\nContent-Disposition: form-data; name="f"; filename="n.txt"\r\n\r\nDATA\r\n--b\r\n'
                b'Content-Disposition: form-data; name="t"\r\n\r\nv\r\n--b--\r\n'), ("text/plain", b"xyz"), (None, b"")]
